@@ -318,6 +318,9 @@ func (s *socket) setTransport(transport transports.Transport) {
 // Upon transport "drain" event
 func (s *socket) onDrain() {
 	if seqFn, err := s.sentCallbackFn.Shift(); err == nil {
+		if verifhook.Enabled {
+			verifhook.Point("socket.onDrain.afterShift", s)
+		}
 		socket_log.Debug("executing batch send callback")
 		for _, fn := range seqFn {
 			fn(s.Transport())
